@@ -6,6 +6,10 @@
 // Outside the claim: parsing a value of the element type from a string (fcppt::extract_from_string: iostreams are not
 // executable in the engine; operator>> / operator<< below exist only to satisfy the templates), usage()/help texts,
 // fcppt::parse::sequence / repetition (their only entry points need a std::istream).
+// Violation on the unchanged tree (triaged as genuine): h_options_flag_ctor: the flag constructor compares
+//   `_active_value.get() == _inactive_value.get()` AFTER both parameters were moved into the members; with
+//   Type = std::string the moved-from strings are both empty and the constructor throws "The active and the inactive
+//   value must be different" for any two distinct strings.
 //@property C05
 //@unity options
 //@flags -I/repo/_build/impl/include
